@@ -1,7 +1,7 @@
 (* C01 -- 1-NN neighbor scores are the exact Shapley values of the 1-NN utility game.  Statements only. *)
 From Coq Require Import List Arith ZArith QArith Bool Permutation.
 From DS Require Import Util.SumQ Spec.Shapley Spec.NNGame Model.Kernel Model.Neighbor
-     Proofs.ShapleyAxioms Proofs.KernelShapley Proofs.KernelFull Proofs.NearestRow.
+     Proofs.ShapleyAxioms Proofs.KernelShapley Proofs.KernelFull Proofs.NearestRow Proofs.SimpleFlag.
 Import ListNotations.
 Local Open Scope Q_scope.
 
@@ -63,9 +63,19 @@ Example C01_nonvacuous :
                                          nulls order) p)) [0; 1]%nat = [1 # 4; 9 # 4].
 Proof. vm_compute. repeat split. Qed.
 
+(* the fast path of get_unit_labels_and_distances (taken when the provenance is flagged "simple"): when row r is owned by unit r
+   the per-unit reduction is the identity -- unit p's nearest row is row p, its distance distances[p], its utility that of
+   labels[p] -- so skipping the reduction is the same computation.  That the flag implies this ownership after any history of
+   edits is C19_simple_flag_sound; the pinned container broke it (finding F19). *)
+Theorem C01_simple_fast_path : forall n labels dist_j Ucol p, (p < n)%nat ->
+  unit_row (seq 0 n) (nthQ dist_j) p = Some p /\ unit_dist (seq 0 n) (nthQ dist_j) p = nthQ dist_j p
+  /\ unit_utility labels (seq 0 n) dist_j Ucol p = nthQ Ucol (encode_label labels (nth p labels 0%Z)).
+Proof. exact simple_fast_path. Qed.
+
 Print Assumptions C01_kernel_is_shapley.
 Print Assumptions C01_bruteforce_form_is_definition.
 Print Assumptions C01_kernel_full.
 Print Assumptions C01_neighbor_is_shapley.
 Print Assumptions C01_game_is_nearest_present_row.
 Print Assumptions C01_order_check_sound.
+Print Assumptions C01_simple_fast_path.
